@@ -35,7 +35,7 @@ def examples(tier):
 @st.composite
 def strategy(draw, tier="quick"):
     boost = draw(st.sampled_from([True, False, False]))
-    g = draw(gen.grammar(regimes=REGIMES, boost=boost, symbols=True, signed=True, **gen.size(tier)))
+    g = draw(gen.grammar(regimes=REGIMES, boost=boost, symbols=True, signed=True, cancel=True, **gen.size(tier)))
     return {
         "pick": draw(st.integers(0, 30)),
         "g": g, "perm": draw(st.sampled_from([0, 1, "rev"]))}
